@@ -70,11 +70,15 @@ BoxStates(Ls, Rs) ==
 EnumStep ==
     /\ More /\ E.e = "Enum"
     /\ LET want == {x \in BoxStates(E.Ls, E.Rs) : \E i \in 1..Len(x) : x[i] # 0}
-           got == {E.out[i] : i \in 1..Len(E.out)} IN
-       IF E.ok = 1 /\ E.exhausted = 1 /\ got = want /\ Cardinality(got) = Len(E.out)
+           got == {E.out[i] : i \in 1..Len(E.out)}
+           \* a second pass on the same manager from the storage cap on: the states from that position on, again
+           restartOK == E.cap < 0 \/ E.exhausted = 0 \/
+                        (E.again = 1 /\ E.out2 = (IF E.cap >= Len(E.out) THEN <<>> ELSE SubSeq(E.out, E.cap + 1, Len(E.out)))) IN
+       IF E.ok = 1 /\ E.exhausted = 1 /\ got = want /\ Cardinality(got) = Len(E.out) /\ restartOK
        THEN bad' = bad
        ELSE Viol("ExactlyOnce", IF E.ok = 0 THEN "raise" ELSE IF Cardinality(got) # Len(E.out) THEN "duplicate"
-                                ELSE IF got \subseteq want THEN "missing" ELSE "inadmissible") /\ bad' = bad + 1
+                                ELSE IF got # want /\ got \subseteq want THEN "missing"
+                                ELSE IF got = want THEN "restart" ELSE "inadmissible") /\ bad' = bad + 1
     /\ ln' = ln + 1 /\ UNCHANGED <<pvars, tid, fin>>
 
 Finish ==
